@@ -202,12 +202,12 @@ theorem search_exact_literal (x : QCtx) (hl : HashLen x.c) (k : Bytes) (hk : x.h
   have hcn : classify x (.col col) .ne (.lit v) = .value col v := by simp [classify, hs, hvne]
   constructor
   · have h := search_exact x hl k hk (.cmp (.col col) .eq (.lit v)) [] [] dcEq
-      (by simp [supported, supportedCmp, hce]) hqe (by simp [rewriteBind, itemParams, hce, hashAt]) S hnc _ _ hrow hpvS
+      (by simp [supported, supportedCmp, hce]) hqe (by simp [rewriteBind, rewriteBindWith, itemParams, hce, hashShared, bindCount, bindData, bindEntries]) S hnc _ _ hrow hpvS
       (by intro w hw; simp [condValues, hce] at hw; subst hw; exact ⟨hv, hm⟩)
     rw [h]
     simp [holds, valOf, evalCmp, evalOp]
   · have h := search_exact x hl k hk (.cmp (.col col) .ne (.lit v)) [] [] dcNe
-      (by simp [supported, supportedCmp, hcn]) hqn (by simp [rewriteBind, itemParams, hcn, hashAt]) S hnc _ _ hrow hpvS
+      (by simp [supported, supportedCmp, hcn]) hqn (by simp [rewriteBind, rewriteBindWith, itemParams, hcn, hashShared, bindCount, bindData, bindEntries]) S hnc _ _ hrow hpvS
       (by intro w hw; simp [condValues, hcn] at hw; subst hw; exact ⟨hv, hm⟩)
     rw [h]
     simp [holds, valOf, evalCmp, evalOp]
@@ -249,7 +249,57 @@ theorem cast_placeholder_not_hashed (x : QCtx) (hpg : x.d = .pg) (col : ColRef) 
     rewriteBind x (.cmp (.col col) .eq (.castParam 0)) values = .ok values := by
   have hv : valueOp .pg .eq = true := by decide
   have hc : changeOp .pg .eq = .eq := by decide
-  simp [rewriteCond, rewriteCmp, classify, hs, hpg, hv, hc, rewriteBind, itemParams, hashAt]
+  simp [rewriteCond, rewriteCmp, classify, hs, hpg, hv, hc, rewriteBind, rewriteBindWith, itemParams, hashShared, bindCount, bindData, bindEntries]
+
+/-! ## `OnBind` next to other kinds of columns, and with a placeholder used twice -/
+
+/-- `hmac/decryptor/{postgresql,mysql}/hashQuery.go`: `OnBind` compares `len(indexes)` with the number of
+`bindData` entries of SEARCHABLE columns only, and `replaceValuesWithHMACs` replaces a position once. -/
+theorem fact_bind_repaired :
+    SearchBind.pgBindCountsSearchableOnly = true ∧ SearchBind.mysqlBindCountsSearchableOnly = true ∧
+    SearchBind.pgReplacesOnce = true ∧ SearchBind.mysqlReplacesOnce = true := by decide
+
+/-- **The count check of `OnBind` can never make it give up**: `ParseSearchQueryPlaceholdersSettings`
+also records the placeholders of consistently tokenized columns, but the entries of searchable columns
+it records are never more than the placeholders `OnBind` collects – for every statement, whatever
+mixture of searchable, tokenized, encrypted-only and plain columns it compares, in every order. -/
+theorem bind_count_never_skips (x : QCtx) (cond : Cond) :
+    bindCount true x cond ≤ (itemParams x cond).length := bindCount_own_le x cond
+
+/-- **Every search parameter is hashed, exactly once, whatever else the statement compares**: given
+an HMAC key, placeholders inside the bound values and search values that are not themselves envelopes,
+`OnBind` succeeds and forwards `HMAC(value)` at every placeholder of a supported comparison with a
+searchable column – also when that placeholder occurs in several comparisons – and every other bound
+value as the client sent it. (Together with `search_exact` this closes the case "statement that also
+compares a tokenized column".) -/
+theorem bind_hashes_every_search_parameter (x : QCtx) (k : Bytes) (hk : x.hkey = some k) (cond : Cond)
+    (params : List Bytes) (hlt : ∀ j ∈ itemParams x cond, j < params.length)
+    (hm : ∀ v ∈ condValues x params cond, registryMatch v = false) :
+    ∃ params', rewriteBind x cond params = .ok params' ∧
+      ∀ j, params'[j]? = if j ∈ itemParams x cond then (params[j]?).map (generateHMAC x.c k) else params[j]? := by
+  obtain ⟨params', h⟩ := rewriteBind_total x k hk cond params hlt hm
+  exact ⟨params', h, (rewriteBind_spec x k hk cond params params' hm h).2⟩
+
+/-- The pinned tree (`len(bindData) > len(indexes)`): `tok = $1 AND data = $2` with `tok` consistently
+tokenized and `data` searchable – `OnBind` forwards BOTH bound values as the client sent them: the search
+parameter reaches the database in clear and matches no blind index. Fixed (`fact_bind_repaired`). -/
+theorem legacy_mixed_counterexample (x : QCtx) (tok data : ColRef) (ht : x.tokenized tok = true)
+    (hts : x.searchable tok = false) (hd : x.searchable data = true) (a b : Bytes) :
+    legacyRewriteBind x (.and (.cmp (.col tok) .eq (.param 0)) (.cmp (.col data) .eq (.param 1))) [a, b] = .ok [a, b] := by
+  have hv : valueOp x.d .eq = true := by cases x.d <;> decide
+  have hne : tok ≠ data := by intro e; rw [e, hd] at hts; cases hts
+  simp [legacyRewriteBind, rewriteBindWith, itemParams, classify, bindCount, bindData, bindEntries, assign, ht, hts, hd, hv]
+
+/-- The pinned tree (no `replaced` set): `data = $1 OR data = $1` – the one bound value is replaced by
+the hash OF ITS HASH, which matches no blind index. Fixed (`fact_bind_repaired`). -/
+theorem legacy_shared_counterexample (x : QCtx) (k : Bytes) (hk : x.hkey = some k) (data : ColRef)
+    (hd : x.searchable data = true) (v : Bytes) (hm : registryMatch v = false)
+    (hm2 : registryMatch (generateHMAC x.c k v) = false) :
+    legacyRewriteBind x (.or (.cmp (.col data) .eq (.param 0)) (.cmp (.col data) .eq (.param 0))) [v]
+      = .ok [generateHMAC x.c k (generateHMAC x.c k v)] := by
+  have hv : valueOp x.d .eq = true := by cases x.d <;> decide
+  simp [legacyRewriteBind, rewriteBindWith, itemParams, classify, bindCount, bindData, bindEntries, assign, hd, hv,
+    hashShared, calcHmac_plain x k v hk hm, calcHmac_plain x k _ hk hm2]
 
 /-! ## a value whose index does not match its content is not handed out -/
 
@@ -396,6 +446,16 @@ example :
     let cond : Cond := .and (.or (.cmp (.col ⟨0, 1⟩) .eq (.lit [65])) (.cmp (.col ⟨0, 1⟩) .ne (.param 0)))
                             (.and (.cmp (.col ⟨0, 1⟩) .eq (.col ⟨1, 1⟩)) (.cmp (.col ⟨0, 0⟩) .lt (.cast [7])))
     supported x (itemParams x cond) cond = true ∧ itemParams x cond = [0] := by decide
+
+/-- `bind_hashes_every_search_parameter` is not vacuous: a statement that compares a tokenized column,
+a searchable column (twice with the same placeholder) and a plain column -/
+example :
+    let x : QCtx := { c := lenOps, d := .pg, hkey := some [1], kv := ⟨none, none, none, none⟩,
+                      searchable := fun c => c.col = 1, tokenized := fun c => c.col = 0 }
+    let cond : Cond := .and (.cmp (.col ⟨0, 0⟩) .eq (.param 0))
+                            (.or (.cmp (.col ⟨0, 1⟩) .eq (.param 1)) (.and (.cmp (.col ⟨0, 1⟩) .ne (.param 1)) (.cmp (.col ⟨0, 2⟩) .eq (.param 2))))
+    itemParams x cond = [1, 1] ∧ bindCount true x cond = 1 ∧ bindCount false x cond = 2 ∧
+    supported x (itemParams x cond) cond = true := by decide
 
 /-- the legacy defect is reachable: a 33-byte plaintext `7f 00…00` with its genuine hash -/
 example :
